@@ -11,7 +11,8 @@
 (*                   steps range over the full alphabet and whose first d - f steps over the reduced  *)
 (*                   one (last cell by -1, ':' per axis, persist-then-reopen); the plan is the first  *)
 (*                   of (3,3) (3,2) (3,1) (2,2) (2,1) (1,1) within Depth whose count is <= Budget     *)
-(*                   (always at least (1,1): every key of the full alphabet is exported).             *)
+(*                   (always at least (1,1): every key of the alphabet is exported).  KeyLimit: a    *)
+(*                   product alphabet larger than this is replaced by the "star" alphabet (StarKeys). *)
 (* Mode = "slices" : universe export of SliceIndices for the conformance check against CPython.      *)
 EXTENDS Storage, Json
 CONSTANTS Mode, MaxRank, MaxSize, Depth, Budget, KeyLimit, LawKeysAll, SliceBound, SliceMaxN
